@@ -20,7 +20,7 @@ RULE = ("records leg: every bin table of BT(3,B,{1,2,3}) (one-bp genomes exclude
         "bg2 / tabix aggregator / cload tabix on files holding all edge records, plus one file per invalid record. Oracle: linear "
         "scan ref_bin_of after the stated mirroring. Non-trivial: the record is valid and not on the first bin of both anchors, or "
         "must be refused. Distinct by construction.")
-EXTRA_LEGS = 'binsizes: every bin size 1..512 (thorough 4096), anchors on the first / middle / last base of 41 bins, zero- and one-based; chromosome columns as categoricals in four category orders; the unlisted chromosome spelled None / NaN and contigs literally called NA / null / NaN in pairs text; the bin table handed over in seven other forms.'
+EXTRA_LEGS = 'binsizes: every bin size 1..512 (thorough 4096), anchors on the first / middle / last base of 41 bins, zero- and one-based; chromosome columns as categoricals in four category orders; the unlisted chromosome spelled None / NaN and contigs literally called NA / null / NaN in pairs text; the bin table handed over in seven other forms.' + ' --input-copy-status duplex together with -N (square storage: every record counts) for cload pairs and load.'
 BOUNDS = {"quick": "records: BT(3,4,W) (678 tables); refusals: full 16 option vectors on tables with <=2 bins, 4 vectors for 3 bins, 1 of 4 (rotating) above; loaders: BTrep(3,4) tables with <= 3 chromosomes + binsizes: every bin size 1..512 x anchors on the first/middle/last base of each of 41 bins, zero- and one-based; chromosome columns also as categoricals in four category orders",
           "thorough": "records: BT(3,5,W); refusals as quick; every valid record also submitted alone on tables with <=4 bins; loaders: BTrep(3,5) + binsizes: every bin size 1..4096 x anchors on the first/middle/last base of each of 41 bins, zero- and one-based; chromosome columns also as categoricals in four category orders"}
 ASSUMPTIONS = ["a record with one unlisted chromosome AND an out-of-range position on the other side may be dropped or rejected",
